@@ -582,6 +582,11 @@ class _Merger(object):
             self._merge_unmatched_kwoargs(
                 self.r_unmatched_kwoargs, self.l.varkwargs, self.r.sources)
 
+        # parameters turned positional-only above must also be classified as
+        # such, or a further merge would treat them as keyword-passable
+        while self.pokargs and self.pokargs[0].kind == self.pokargs[0].POSITIONAL_ONLY:
+            self.posargs.append(self.pokargs.pop(0))
+
         self.varargs = self._add_starargs(
             self.varargs_src, self.l.varargs, self.r.varargs)
         self.varkwargs = self._add_starargs(
